@@ -38,7 +38,7 @@ DEFAULT_CFG = dict(
     const=0.3,               # chance of a constant term per poly cost entry
     even_on_consumers=0.25,  # chance that a case may put c2/c0 on load/storage/dcline entries (the F8 shape)
     fixed_cost=0.08,         # chance per non-dispatchable (non-controllable / out of service) element of a cost entry
-    tight_branch=0.45, bus_limits=True, gen_fixed=0.12, gen_index_gap=0.1,
+    tight_branch=0.45, tight_dc=0.3, bus_limits=True, gen_fixed=0.12, gen_index_gap=0.1,
     oos_el=0.015, oos_bus=0.008, open_switch=0.08,
     dcline_lossless=0.6,     # share of dclines without losses (the OPF loss model deviates from the documented one)
     dead_terminal=0.1,       # share of cases that keep an in-service ext_grid/dcline at an out-of-service bus
@@ -71,7 +71,7 @@ def _q_limits(draw, S, qset, wide=0.3):
 
 
 @st.composite
-def opf_data(draw, recipe, cfg, rnd):
+def opf_data(draw, recipe, cfg, rnd, ac=True):
     """adds controllable flags and limits to the recipe elements in place and returns it"""
     el = recipe["el"]
     # out-of-service parts and open switches (netgen's own flags use st.floats and are far too frequent for OPF problems)
@@ -177,6 +177,8 @@ def opf_data(draw, recipe, cfg, rnd):
     # branch loading limits: none / 100 % everywhere / a mix, plus one or two really tight branches in "tight" cases
     # (tight limits on every branch make most problems infeasible: measured 17 % convergence)
     style = draw(st.sampled_from(["none", "100", "mixed", "mixed", "tight", "tight"]))
+    if not ac and _chance(rnd, cfg["tight_dc"]):
+        style = "tight"         # DC OPF: binding flow limits are what makes the optimum depend on the network model
     branches = [e for e in el if e["t"] in ("line", "trafo", "trafo3w")]
     if style != "none":
         for e in branches:
@@ -185,9 +187,19 @@ def opf_data(draw, recipe, cfg, rnd):
             elif draw(st.integers(0, 2)):
                 e["max_loading_percent"] = draw(st.sampled_from([100.0, 100.0, 120.0, 80.0]))
         if style == "tight" and branches:
-            for _ in range(1 + int(_chance(rnd, cfg["tight_branch"]))):
+            for _ in range(1 + int(_chance(rnd, cfg["tight_branch"])) + int(not ac and _chance(rnd, cfg["tight_branch"]))):
                 e = branches[draw(st.integers(0, len(branches) - 1))]
                 e["max_loading_percent"] = float(draw(st.integers(10, 70)))
+                if not ac or draw(st.booleans()):
+                    # a limit in the order of the power that is actually around (ratings are far above the generated loads)
+                    if e["t"] == "line":
+                        rate = e["max_i_ka"] * e.get("df", 1.0) * e.get("parallel", 1) * 3 ** 0.5 * recipe["buses"][e["from_bus"]]["vn_kv"]
+                    elif e["t"] == "trafo":
+                        rate = e["sn_mva"] * e.get("df", 1.0) * e.get("parallel", 1)
+                    else:
+                        rate = min(e["sn_hv_mva"], e["sn_mv_mva"], e["sn_lv_mva"])
+                    pct = round(100.0 * draw(q(0.1, 0.9, nd=2)) * max(total, 0.01 * rate) / rate, 3)
+                    e["max_loading_percent"] = min(max(pct, 0.5), 100.0)
     # bus voltage limits (equal within an electrical node)
     if cfg["bus_limits"]:
         style = draw(st.sampled_from(["none", "wide", "normal", "mixed", "mixed"]))
@@ -299,8 +311,8 @@ def opf_case(draw, cfg=None, profile=None):
     cfg = dict(DEFAULT_CFG, **(cfg or {}))
     recipe = draw(netgen.grid(profile or PROFILE))
     rnd = draw(st.randoms(use_true_random=True))
-    recipe = draw(opf_data(recipe, cfg, rnd))
     ac = not _chance(rnd, cfg["p_dc"])
+    recipe = draw(opf_data(recipe, cfg, rnd, ac))
     if ac:
         opt = {"mode": "ac", "init": draw(st.sampled_from(["flat", "flat", "pf"])),
                "calculate_voltage_angles": draw(st.sampled_from([True, True, False]))}
@@ -327,12 +339,17 @@ def build(case):
     return net, maps
 
 
-def run_opf(net, opt):
+TIGHT = dict(PDIPM_COMPTOL=1e-10, PDIPM_COSTTOL=1e-10, PDIPM_GRADTOL=1e-9, OPF_VIOLATION=5e-9, PDIPM_MAX_IT=400)
+
+
+def run_opf(net, opt, tight=False):
+    """tight=True: documented solver tolerances 1000x smaller (used to re-evaluate a deviation that may be a tolerance effect)"""
     import pandapower as pp
+    kw = dict(TIGHT) if tight else {}
     if opt["mode"] == "dc":
-        pp.rundcopp(net)
+        pp.rundcopp(net, **kw)
     else:
-        pp.runopp(net, init=opt.get("init", "flat"), calculate_voltage_angles=opt.get("calculate_voltage_angles", True))
+        pp.runopp(net, init=opt.get("init", "flat"), calculate_voltage_angles=opt.get("calculate_voltage_angles", True), **kw)
 
 
 def opf_outcome(e):
